@@ -13,6 +13,7 @@ def errno_locals(func):
     memo = func.__dict__.setdefault("_errno_locals", None)
     if memo is None:
         memo = {d["var"] for d in func.events("decl") if d.get("var") and "__errno_location" in ((d.get("init") or {}).get("t") or "")}
+        memo |= {d.get("var") for d in func.events("bind") if d.get("var") and "__errno_location" in ((d.get("init") or {}).get("t") or d.get("t") or "")}
         memo -= {(a.get("lhs") or {}).get("v") for a in func.events("assign")}
         func.__dict__["_errno_locals"] = memo
     return memo
@@ -47,6 +48,28 @@ def errno_arms(func, values):
             arm = b.succs[0]
             if arm is not None:
                 arms.setdefault(arm, []).append(b.id)
+    # `switch (errno)` / `switch (err)` with err a copy of errno (also the parameter of an expanded classifying helper): the blocks of the
+    # case labels whose constants are all in `values`, entered from the switch or by falling through from another such label only
+    el = errno_locals(func)
+    binds = {e.get("var") for e in func.events("bind") if "__errno_location" in ((e.get("init") or {}).get("t") or e.get("t") or "")}
+    for b in func.blocks.values():
+        t = b.term
+        if not t or t.get("k") != "switch":
+            continue
+        cond = t.get("cond")
+        cond = cond[0] if isinstance(cond, list) and cond else (cond or "")
+        cv = (t.get("core") or {}).get("v")
+        if "__errno_location" not in cond and cv not in el and cv not in binds and cond.strip() not in binds:
+            continue
+        good = {}
+        for s_ in b.succs:
+            blk = func.blocks.get(s_) if s_ is not None else None
+            lab = (blk.label or {}) if blk is not None else {}
+            if lab.get("k") == "case" and isinstance(lab.get("const"), int) and lab["const"] in values:
+                good[s_] = blk
+        for s_, blk in good.items():
+            if all(p_ == b.id or p_ in good for p_ in blk.preds):
+                arms.setdefault(s_, []).append(b.id)
     # a `lor` chain: all members share the same true successor; keep arms whose every condition block is an errno test
     return arms
 
